@@ -259,6 +259,7 @@ structure Script where
 inductive PollAns
   | ans (adv : Nat) (fds : List (Nat × Bits))
   | eintr (adv : Nat)
+  | intr (adv : Nat)        -- EINTR from a signal whose handler has called `events_interrupt()`
   deriving Repr, Inhabited
 
 structure State where
@@ -378,7 +379,9 @@ def nextTimeout (wait : Option ((Int × Int) × Nat)) (timeout : Int) (clock : N
 
 /-- the `while (poll(...) == -1)` loop of `events_network_select`, consuming the answer queue `q`;
     an empty queue answers "nothing ready"; after EINTR (and no interrupt request) poll is called
-    again with `nextTimeout` -/
+    again with `nextTimeout`.  The answer `intr adv` is a signal arriving `adv` µs into the poll —
+    any poll, whatever its timeout — whose handler calls `events_interrupt()`: poll fails with EINTR,
+    `*interrupt_requested` is set, and the loop is left (`if (*interrupt_requested) break;`) -/
 def pollLoop (s : State) (wait : Option ((Int × Int) × Nat)) (timeout : Int) : List PollAns → State
   | [] => answer s timeout 0 [] []
   | .ans adv a :: rest => answer s timeout adv a rest
@@ -386,6 +389,9 @@ def pollLoop (s : State) (wait : Option ((Int × Int) × Nat)) (timeout : Int) :
       let s1 := emit { s with clock := s.clock + adv, pollq := rest }
                   (.poll timeout adv (pollEntries s.net.fds (fun _ => {})) .eintr)
       if s1.intr then s1 else pollLoop s1 wait (nextTimeout wait timeout s1.clock) rest
+  | .intr adv :: rest =>
+      emit { s with clock := s.clock + adv, pollq := rest, intr := true }
+        (.poll timeout adv (pollEntries s.net.fds (fun _ => {})) .intr)
 where
   answer (s : State) (timeout : Int) (adv : Nat) (a : List (Nat × Bits)) (rest : List PollAns) : State :=
     let nready := (s.net.fds.toList.filter (fun e => (maskAns a e).any)).length
